@@ -752,11 +752,6 @@ def check(run: common.Run):
                 continue
             src, out, q = fires_and_expected(mods, name, p)
             if isinstance(q, tuple):
-                if q[:2] == ("raised", "IndexError") and name == "fixes.breakout_common_code_in_ifs":
-                    # DESIGN row 34 (C04): _move_after_scope computes its insertion point on the line after the `if`;
-                    # at the end of the file the rule raises instead of returning.  Outside this property.
-                    hist["outside-domain:breakout-raises-IndexError-at-EOF"] += 1
-                    continue
                 impl_problems.append({"rule": name, "source": src, "output": out, "problem": q})
                 continue
             if q != p:
